@@ -15,7 +15,7 @@ ANCHOR_FILES = ["aw_datastore/migration.py"]
 REQUIRED_COUNTERS = ["migrations_triggered", "events_compared", "buckets_compared"]
 RULE = ("legacy databases built by the real PeeweeStorage at its default path inside a private XDG_DATA_HOME: 0-6 "
         "buckets (unicode ids, look-alike ids that differ only in letter case / wildcards / blanks / composition, data dicts, with/without name, explicit creation instants), 0-300 events each "
-        "(generated instants/durations/JSON data, some events recorded two or three times identically; ids overlap across buckets; 100-row chunk boundaries crossed) and a few "
+        "(written bucket by bucket, or - in three cases out of five - in turns, so that the rows of a bucket are interleaved with those of the others in the legacy table; generated instants/durations/JSON data, some events recorded two or three times identically; ids overlap across buckets; 100-row chunk boundaries crossed) and a few "
         "per cent with 999-5000 time-clustered, overlapping events (page / batch boundaries of any size up to 5000), in "
         "the normal and the testing profile, sometimes with the OTHER profile's legacy file present too (the same process then creates that profile's store as well and it is compared with its own legacy content); then "
         "SqliteStorage is created at its default location, which triggers the migration (in half of the cases its connection is then closed without any other call and the store is opened afresh, as after a start-and-stop of the server); bucket sets, metadata and "
@@ -89,7 +89,8 @@ def gen_case(rng, ctx):
         if rng.random() < 0.5:
             b["created"] = [rand_instant(rng), rand_offset(rng)]
         buckets.append(b)
-    return dict(testing=rng.random() < 0.5, buckets=buckets, other_profile=rng.random() < 0.3, reopen=rng.random() < 0.5)
+    return dict(testing=rng.random() < 0.5, buckets=buckets, other_profile=rng.random() < 0.3, reopen=rng.random() < 0.5,
+                interleave=rng.choice([0, 0, 1, 7, 60]))
 
 
 def _sha(path):
@@ -97,10 +98,38 @@ def _sha(path):
         return hashlib.sha256(f.read()).hexdigest()
 
 
-def _build_legacy(testing, buckets):
+def _build_legacy(testing, buckets, interleave=0):
     from aw_datastore import Datastore
     from aw_datastore.storages import PeeweeStorage
     ds = Datastore(PeeweeStorage, testing=testing)
+    if interleave:
+        # the watchers wrote in turns: the rows of one bucket do not form one run in the legacy events table
+        pending = {}
+        for b in buckets:
+            pending[b["id"]] = [mk_event(s) for s in b["events"]]
+            b = dict(b, events=[])
+        step = 0
+        created = {}
+        for b in buckets:
+            kw = dict(type=b["type"], client=b["client"], hostname=b["hostname"])
+            if "name" in b:
+                kw["name"] = b["name"]
+            if "data" in b:
+                kw["data"] = b["data"]
+            if "created" in b:
+                kw["created"] = mk_dt(*b["created"])
+            created[b["id"]] = ds.create_bucket(b["id"], **kw)
+        while any(pending.values()):
+            for bid, evs in pending.items():
+                if evs:
+                    n = 1 if (step + len(bid)) % 3 == 0 else interleave
+                    chunk, pending[bid] = evs[:n], evs[n:]
+                    if len(chunk) == 1:
+                        created[bid].insert(chunk[0])
+                    else:
+                        created[bid].insert(chunk)
+            step += 1
+        buckets = []
     for b in buckets:
         kw = dict(type=b["type"], client=b["client"], hostname=b["hostname"])
         if "name" in b:
@@ -144,7 +173,7 @@ def run_case(case, ctx):
                 dict(id="other-profile-bucket", type="t", client="c", hostname="h", events=[dict(ts=10**15, dur=1000, data={"uid": -1})]),
                 dict(id=shared, type="t-other", client="c-other", hostname="h-other",
                      events=[dict(ts=10**15 + i * 10**6, dur=500, data={"uid": -2 - i}) for i in range(3)])][: 2 if shared != "other-profile-bucket" else 1])
-        legacy = _build_legacy(testing, case["buckets"])
+        legacy = _build_legacy(testing, case["buckets"], case.get("interleave", 0))
         lpath = os.path.join(data_dir, "peewee-sqlite" + ("-testing" if testing else "") + ".v2.db")
         if not os.path.isfile(lpath):
             raise RuntimeError(f"legacy file not where expected: {os.listdir(data_dir)}")
